@@ -9,6 +9,8 @@ Streams
              halves of a cell and on .5 ties, depths above / inside / below / exactly on a level.
   kernel   : `z2s_kernel.py_func` on one column, N up to 60 (N = 1 = known edge, model comparison only).
   grid     : real `ladim.ROMS.Grid` from a synthetic file and from Vinfo; Grid.z_r / Grid.z_w vs model sdepth.
+  sweep    : EVERY N in 1..60 in every run (oracle only): output lengths N / N+1 of s_stretch (three curves, both
+             staggers) and sdepth (both Vtransforms), range, strict increase, interleaving; Grid from Vinfo has N levels.
   interval : Coq goals  Rabs (Cs vs ts tb (S N k) - <python value>) <= 1e-10  closed by the `interval` tactic.
 """
 from __future__ import annotations
@@ -33,7 +35,8 @@ RULE = ("sdepth: interleaved stretching arrays (dyadic exact stream, N in {1,2,4
         "arrays then pushed through sdepth; z2s: 3x2 columns of different depth, particle cells by round-half-even "
         "incl. upper half of a cell and .5 ties, depths above/inside/below/on a level; kernel: one column N in 2..60 "
         "(plus N = 1, model comparison only); grid: Grid from file and from Vinfo (Vstretching 1/2/4, Vtransform "
-        "1/2, default keys omitted); interval: sampled s_stretch values against the R model. Non-trivial = distinct "
+        "1/2, default keys omitted); sweep: every N in 1..60 each run, structural facts (lengths N / N+1, range, strict "
+        "increase, interleaving) of s_stretch x3 curves, sdepth x2 transforms and a Grid from Vinfo, oracle only; interval: sampled s_stretch values against the R model. Non-trivial = distinct "
         "parameter tuple of a stream (for z2s/kernel: distinct (column, depth class) combination).")
 TRUSTED = ["Coq 8.16.1 kernel + vm_compute", "coq-interval tactic (proof terms re-checked by the kernel at Qed)",
            "hand-written models coq/Model/VGrid.v (Q) and coq/Model/VStretch.v (R) tied by this correspondence",
@@ -219,6 +222,17 @@ def gen_grid(rng, i):
     return d
 
 
+def gen_sweep(rng, N):
+    """structural facts for EVERY N of the quantifier (oracle only, no Coq comparison)"""
+    ts = rng.choice([rng.uniform(0.1, 10), rng.uniform(3, 10), 10.0])
+    tb1 = rng.choice([0.0, 1.0, rng.random()])
+    tb = rng.choice([4.0, rng.uniform(0.1, 4)])
+    h = rng.choice([1.0, 5000.0, _loguniform(rng, 1, 5000)])
+    return {"k": "sweep", "N": N, "theta_s": ts, "theta_b1": tb1, "theta_b": tb, "h": h,
+            "hc1": rng.choice([0.0, h, rng.uniform(0, h)]), "hc2": rng.choice([0.0, _loguniform(rng, 0.1, 1000)]),
+            "vals": _interleaved_general(rng, N), "grid_vs": [1, 2, 4][N % 3], "grid_vt": 1 + (N // 3) % 2}
+
+
 def gen_interval(rng, n):
     samples = []
     for i in range(n):
@@ -248,6 +262,8 @@ def gen_cases(ctx):
         out.append(gen_kernel(rng, exact=(i % 2 == 0), single=True))
     for i in range(18 * f):
         out.append(gen_grid(rng, i))
+    for N in range(1, 61):  # every N of the property's quantifier, every run
+        out.append(gen_sweep(rng, N))
     out.append(gen_interval(rng, 24 if ctx.quick else 160))
     return out
 
@@ -258,9 +274,11 @@ def gen_cases(ctx):
 SLACK = 1e-12
 
 
-def oracle_stretch(Cr, Cw, what):
+def oracle_stretch(Cr, Cw, what, N=None):
     """curves rise monotonically from -1 to 0; w ends at -1 and 0; rho and w values interleave"""
     pb = []
+    if N is not None and (len(Cr) != N or len(Cw) != N + 1):
+        return [f"{what}: {len(Cr)} rho-values and {len(Cw)} w-values for N={N} levels"]
     N = len(Cr)
     if len(Cw) != N + 1:
         return [f"{what}: {len(Cw)} w-values for {N} rho-values"]
@@ -282,10 +300,12 @@ def oracle_stretch(Cr, Cw, what):
     return pb
 
 
-def oracle_levels(zr, zw, h, what):
+def oracle_levels(zr, zw, h, what, N=None):
     """level depths increase strictly bottom to surface within [-h,0]; w starts at -h, ends at 0, interleaves with rho"""
     pb = []
     zr, zw = np.asarray(zr, dtype=float), np.asarray(zw, dtype=float)
+    if N is not None and (len(zr) != N or len(zw) != N + 1):
+        return [f"{what}: {len(zr)} rho-levels and {len(zw)} w-levels for N={N}"]
     N = len(zr)
     if len(zw) != N + 1:
         return [f"{what}: {len(zw)} w-levels for {N} rho-levels"]
@@ -395,7 +415,7 @@ def eval_stretch(desc):
     Cr = s_stretch(N, ts, tb, stagger="rho", Vstretching=vs)
     Cw = s_stretch(N, ts, tb, stagger="w", Vstretching=vs)
     what = f"s_stretch(N={N}, theta_s={ts!r}, theta_b={tb!r}, Vstretching={vs})"
-    pb = oracle_stretch(Cr, Cw, what)
+    pb = oracle_stretch(Cr, Cw, what, N)
     if vs == 1:  # default Vstretching is 1 and stagger defaults to rho
         if not np.array_equal(s_stretch(N, ts, tb), Cr):
             pb.append(f"{what}: defaults (stagger='rho', Vstretching=1) give a different array")
@@ -523,6 +543,64 @@ def eval_grid(desc, ctx):
             "observed": {"z_r[:,0,0]": zr[:, 0, 0].tolist()[:5], "z_w[:,0,0]": zw[:, 0, 0].tolist()[:5]}}
 
 
+def eval_sweep(desc, ctx):
+    from ladim.ROMS import Grid, s_stretch, sdepth
+
+    N, ts, h = desc["N"], desc["theta_s"], desc["h"]
+    pb = []
+
+    def levels(Cr, Cw, what):
+        for vt, hc in ((1, desc["hc1"]), (2, desc["hc2"])):
+            w2 = f"{what} -> sdepth(h={h!r}, hc={hc!r}, Vtransform={vt})"
+            try:
+                zr = sdepth(np.array([h]), hc, Cr, stagger="rho", Vtransform=vt)
+                zw = sdepth(np.array([h]), hc, Cw, stagger="w", Vtransform=vt)
+            except Exception as e:  # noqa: BLE001
+                pb.append(f"{w2}: raises {type(e).__name__}: {e}")
+                continue
+            if zr.shape != (N, 1) or zw.shape != (N + 1, 1):
+                pb.append(f"{w2}: shapes {zr.shape} / {zw.shape} for N={N} levels")
+                continue
+            pb.extend(oracle_levels(zr[:, 0], zw[:, 0], h, w2, N))
+
+    # generated stretching arrays of exactly N / N+1 values
+    vals = desc["vals"]
+    levels(np.array(vals[1::2]), np.array(vals[0::2]), f"N={N} generated stretching arrays")
+    # the three curves
+    for vs in (1, 2, 4):
+        tb = desc["theta_b1"] if vs == 1 else desc["theta_b"]
+        what = f"s_stretch(N={N}, theta_s={ts!r}, theta_b={tb!r}, Vstretching={vs})"
+        try:
+            Cr = np.asarray(s_stretch(N, ts, tb, stagger="rho", Vstretching=vs))
+            Cw = np.asarray(s_stretch(N, ts, tb, stagger="w", Vstretching=vs))
+        except Exception as e:  # noqa: BLE001
+            pb.append(f"{what}: raises {type(e).__name__}: {e}")
+            continue
+        p = oracle_stretch(Cr, Cw, what, N)
+        pb.extend(p)
+        if not p:
+            levels(Cr, Cw, what)
+    # Grid from Vinfo has N rho-levels and N+1 w-levels in every cell
+    vs, vt = desc["grid_vs"], desc["grid_vt"]
+    tb = desc["theta_b1"] if vs == 1 else desc["theta_b"]
+    hc = desc["hc1"] if vt == 1 else desc["hc2"]
+    path = ctx.subdir("grid") / f"sweep_{N}.nc"
+    rf.write_roms(path, imax=4, jmax=3, N=2, times=[0], h=h, hc=0.0, grid_only=True)
+    what = f"Grid from Vinfo (N={N}, theta_s={ts!r}, theta_b={tb!r}, Vstretching={vs}, Vtransform={vt}, h={h!r}, hc={hc!r})"
+    try:
+        g = Grid(filename=str(path), Vinfo={"N": N, "hc": hc, "theta_s": ts, "theta_b": tb, "Vstretching": vs, "Vtransform": vt})
+        zr, zw = np.asarray(g.z_r, dtype=float), np.asarray(g.z_w, dtype=float)
+        if zr.shape != (N, 1, 2) or zw.shape != (N + 1, 1, 2):
+            pb.append(f"{what}: z_r {zr.shape}, z_w {zw.shape} for N={N} and (1, 2) cells")
+        else:
+            pb.extend(oracle_levels(zr[:, 0, 1], zw[:, 0, 1], h, what, N))
+    except Exception as e:  # noqa: BLE001
+        pb.append(f"{what}: raises {type(e).__name__}: {e}")
+    path.unlink(missing_ok=True)
+    return {"ints": None, "oracle": "; ".join(pb[:3]) or None, "nontrivial": ("sweep", N), "kind": "sweep-every-N",
+            "observed": {"N": N}}
+
+
 def _lit(x):
     n, d = float(x).as_integer_ratio()
     return f"({n} / {d})" if n >= 0 else f"(- {-n} / {d})"
@@ -600,6 +678,8 @@ def eval_case(desc, ctx):
         return eval_kernel(desc)
     if k == "grid":
         return eval_grid(desc, ctx)
+    if k == "sweep":
+        return eval_sweep(desc, ctx)
     if k == "interval":
         return eval_interval(desc, ctx)
     raise ValueError(f"unknown case kind {k}")
